@@ -403,7 +403,8 @@ def _kept_cell_classes(v, cell):
     elif b["op"] == "Add":
       had = 0
   out = set()
-  readded = any(b["op"] == "Add" for i2, b in mine if i2 < i)      # a stale pending evaluation of the row id
+  # the row id was used (and removed) earlier in the bundle: a stale pending evaluation of that id
+  readded = any(i2 < i for i2, _b in mine)
   if a["op"] == "Add" and kc["when"] != NEVER and \
      ((kc["when"] == DEFAULT and [d for d in kc["deps"] if d != col]) or readded):
     out.add("add")
